@@ -10,7 +10,7 @@ ALIASES = ["a", "b", "k", "x1", "id", "name", "z", "t0", "w", "y2", "m", "n", "o
 DEFAULT_KNOBS = dict(
     max_depth=4, max_sel=5, max_frags=4, max_ops=3, frag_pct=18, inline_pct=15, alias_pct=25,
     repeat_pct=15, skip_pct=12, var_pct=25, typename_pct=10, opt_arg_pct=55, op_kinds=("query", "mutation"),
-    null_pct=12, directive_vars=True, introspection_pct=0,
+    null_pct=12, directive_vars=True, introspection_pct=0, skip_null_pct=0,
 )
 
 
@@ -100,8 +100,16 @@ class DocGen:
             return None
         cands = [n for n, (vt, vd) in self.vars.items() if var_allowed(vt, vd, ty, loc_default)]
         if exact:
-            # directive arguments: the June-2018 text does not say what a runtime null in a
-            # non-null directive argument means, so only exactly-typed variables without default
+            if self.k["skip_null_pct"] and t.chance(self.k["skip_null_pct"]):
+                # a nullable Boolean variable with a default is allowed at `if: Boolean!`; at run time it may
+                # be an explicit null.  CollectFields is literal about it: @skip skips when `if` is true,
+                # @include includes when `if` is true (so null: not skipped / not included)
+                name = "v%d" % len(self.vars)
+                self.vars[name] = (ty[1], ("bool", bool(t.draw(2))))
+                self.uses.setdefault(self.owner, set()).add(name)
+                self.probe("directive_if_nullable_var_with_default")
+                return ("var", name)
+            # otherwise only exactly-typed variables without default
             cands = [n for n in cands if self.vars[n] == (ty, ABSENT)]
         if cands and t.chance(40):
             name = t.choose(cands)
